@@ -4,12 +4,14 @@ CONSTANTS XKinds = {"lit"}
           Aliases = {"none"}
           Delays = {"none"}
           Opts = {"base"}
+          FKinds = {"none"}
           Typed = {FALSE}
           Strs = {FALSE}
           Outs = {TRUE}
           SwapDepClasses = FALSE
           ForgetOutputs = TRUE
           DurDepsOffByOne = FALSE
+          ConstMXNotMX = FALSE
           TruthyOptions = FALSE
 INIT Init
 NEXT Next
